@@ -11,6 +11,12 @@ directory under /dev/shm and three independent things are decided, each clause w
   roundtrip  mouette loads what mouette wrote (reported when the writer was found sound, or when a
              different clause fails than in `write`)                             -> blames mesh.load
   attributes geogram_ascii only: 5 types x arity 1..3 x every container x sparse/dense x value pattern.
+  ignore     save(mesh, path, ignore_elements=S) for EVERY subset S of {edges, faces, cells} (and None): every element
+             kind that is not in S and that the format can express comes back identical, the kinds in S are absent,
+             and the class is the one the remaining content implies; judged on the bytes (-> mesh.save) and on the
+             reloaded object (-> mesh.load); only what needs the ignore set is reported here
+  dim        load(path, dim=k) of the independent writer's file for k in {None,0,1,2,3}: the override only RAISES the
+             dimensionality (class = max(k, what the content implies)) and never changes an element -> mesh.load
 
 Binary STL is only ever loaded in a sacrificial forked child; a dead child is a `crash` fingerprint.
 """
@@ -26,7 +32,10 @@ RULE = ("every mesh of the finite families (all-triples point cloud over an 11-v
         "labelled conforming tet complexes, hexahedra) x 7 formats x every export-switch vector within one deviation "
         "of the defaults (export_edges_in_obj, complete_edges_from_faces, every non-empty subset of ignore_elements "
         "the mesh class owns) x declared hard edges (none / one / dangling) x face-listing deviation; one case = one "
-        "distinct (mesh, format, switches); non-trivial = the mesh has at least one vertex and the case ran save")
+        "distinct (mesh, format, switches); non-trivial = the mesh has at least one vertex and the case ran save; "
+        "ignore clause: a representative sub-family of every mesh kind x 7 formats x all 8 subsets of ignore_elements "
+        "(+ None) x {defaults, complete_edges_from_faces off, export_edges_in_obj off}; dim clause: the same "
+        "sub-family written by the reference writer x 7 formats x dim in {None,0,1,2,3} x edge completion on/off")
 ASSUMPTIONS = [
     "the reference codecs in mc/c04_codecs.py (token-stream parsers and writers written from the public format "
     "descriptions, self-tested against each other and against the repository's tests/data files) are the trusted base",
@@ -41,6 +50,15 @@ ASSUMPTIONS = [
     "STL: compared as an unordered soup of float32 triangles (each up to rotation of its three corners); either "
     "two-triangle split of a quad is accepted; polygons may be rejected by an exception or dropped; declining to "
     "write a file for a mesh without any expressible face is accepted",
+    "ignore clause (exact): an edge of the saved mesh must come back whenever 'edges' is not ignored and the format "
+    "expresses edges, unless it belongs to a face / cell that is NOT ignored and that the format cannot express (the "
+    "tolerance above); edges of IGNORED faces / cells must come back (wireframe export). Without edge support or with "
+    "'edges' ignored the result holds exactly the edges of the faces / cells that come back. A failure that the same "
+    "(mesh, format, switches) already shows with ignore_elements=None is not an ignore failure (reported by the other "
+    "clauses)",
+    "dim clause: judged only on files whose plain load (dim=None) is right; the class order is PointCloud < PolyLine "
+    "< SurfaceMesh < VolumeMesh; the fingerprint class is the relation of dim to the content (dim<content, "
+    "dim==content, dim>content) followed by 'all-formats' when every format exercised in the task fails alike",
     "when the independent reader finds mouette's file unsound the round trip of that same file is not reported a "
     "second time, and when mouette's reader already failed on the reference writer's file of a mesh its round trip "
     "is not reported either (same defect); the other clauses and the other meshes of the format are still checked",
@@ -49,10 +67,15 @@ BOUNDS = {
     "quick": "cloud 11^3 points + 0/1/2-point clouds; graphs n<=4 (71); tri+quad complexes n=4 (64) x 2 listings x <=3 "
              "hard-edge variants; 11 polygon/polyhedron specimens; tet complexes n<=5 (27) x 2 orientations; 3 hex "
              "specimens; x 7 formats x <=10 switch vectors; reference-writer variants all; attributes 5 types x arity "
-             "1..3 x 7 containers x sparse/dense x 2 value patterns on 4 host meshes",
+             "1..3 x 7 containers x sparse/dense x 2 value patterns on 4 host meshes; ignore + dim clauses on the "
+             "sub-family {0/1/2-point clouds, graphs n<=3, tri+quad complexes n=4 first listing x <=3 hard-edge variants, "
+             "11 specimens, tet complexes n<=5 x 2 orientations, 3 hex specimens}: x 7 formats x 9 ignore sets x 2 (obj: 3) "
+             "switch bases, resp. x 7 formats x 5 dim values x completion on/off",
     "thorough": "quick + graphs n=5 (1023); tri+quad complexes n=5 with <=5 faces (2612) x 2 listings x <=3 hard-edge "
                 "variants; every single face rotation / adjacent swap of the n=4 complexes; the 16 tet classes on 6 "
-                "vertices x 2 orientations; holey 3x3 grids",
+                "vertices x 2 orientations; holey 3x3 grids; ignore + dim clauses on quick's sub-family + graphs n=4, both "
+                "listings of the n=4 complexes, the n=5 complexes (first listing, no declared edge), tet classes on 6 "
+                "vertices, holey grids",
 }
 
 FORMATS = ["obj", "mesh", "geogram_ascii", "off", "tet", "xyz", "stl"]
@@ -170,6 +193,18 @@ def family(name, tier):
                     "C": [[4, 5, 6, 7, 8, 9, 10, 11], [0, 1, 2, 3, 4, 5, 6, 7]]})
         out.append({"name": "hex:hex+tet", "n": 12, "E": [], "F": [], "xyz": fl(cube + up),
                     "C": [[8, 9, 10, 11], [0, 1, 2, 3, 4, 5, 6, 7]]})
+    elif name == "sel":              # the sub-family of the ignore / dim clauses: every mesh kind, small members
+        def take(fam, pred=lambda nm: True):
+            out.extend(sp for sp in family(fam, tier) if pred(sp["name"]))
+        take("cloud", lambda nm: nm != "cloud:all-triples")
+        take("graph", lambda nm: int(nm.split(":")[1]) <= (3 if tier == "quick" else 4))
+        if tier == "quick":
+            take("surf", lambda nm: ":l0:" in nm)
+        else:
+            take("surf", lambda nm: nm.startswith("surf:4:") or (":l0:" in nm and nm.endswith(":none")))
+        take("zoo")
+        take("tet")
+        take("hex")
     else:
         raise ValueError(name)
     return out
@@ -179,11 +214,25 @@ FAMILIES = {"quick": ["cloud", "graph", "surf", "zoo", "tet", "hex"],
             "thorough": ["cloud", "graph", "surf", "listing", "zoo", "tet", "hex"]}
 PINNED = {("quick", "cloud"): 4, ("quick", "graph"): 71, ("quick", "zoo"): 11, ("quick", "tet"): 54, ("quick", "hex"): 3,
           ("thorough", "cloud"): 4, ("thorough", "graph"): 1094, ("thorough", "tet"): 86, ("thorough", "hex"): 3}
+IGN_KINDS = ("edges", "faces", "cells")
+DIMS = [None, 0, 1, 2, 3]
+CLASS_ORDER = ["PointCloud", "PolyLine", "SurfaceMesh", "VolumeMesh"]
 
 
 CLEAN_FLOOR = {"obj": ["points", "edges", "tri", "quad", "poly", "tet", "hex"], "mesh": ["points", "edges", "tri", "quad", "tet"],
                "geogram_ascii": ["points", "edges", "tri"], "off": ["points", "edges", "tri", "tet"], "tet": ["points", "tet", "hex"],
                "xyz": ["points", "edges", "tri", "tet"], "stl": ["tri", "quad", "tet"]}
+
+
+PINNED_SEL = {"quick": 261, "thorough": 3185}
+# (source top kind -> top kind left) transitions of the ignore clause that pass every clause on the unchanged tree, and the
+# relations of the dim clause every format can exercise (xyz holds points only: dim is never below its content)
+IGN_FLOOR = {"obj": ["faces->edges", "cells->edges", "cells->faces", "faces->points", "edges->points", "faces->faces"],
+             "geogram_ascii": ["faces->edges", "cells->edges", "cells->faces", "cells->cells", "edges->points"],
+             "mesh": ["cells->faces", "cells->cells", "faces->points", "edges->points", "edges->edges"],
+             "off": ["faces->points", "faces->faces"], "tet": ["cells->points", "cells->cells"], "xyz": ["faces->points"],
+             "stl": ["faces->faces"]}
+DIM_RELATIONS = ["dim<content", "dim==content", "dim>content"]
 
 
 def tasks(tier):
@@ -197,6 +246,11 @@ def tasks(tier):
     for host in ("cloud", "polyline", "surface", "volume"):
         for dense in (False, True):
             out.append({"kind": "attr", "host": host, "dense": dense})
+    n = len(family("sel", tier))
+    for lo in range(0, n, CHUNK[tier]):
+        for fmt in FORMATS:
+            out.append({"kind": "ign", "tier": tier, "fmt": fmt, "lo": lo, "hi": min(n, lo + CHUNK[tier])})
+        out.append({"kind": "dim", "tier": tier, "lo": lo, "hi": min(n, lo + CHUNK[tier])})
     return out
 
 
@@ -340,9 +394,33 @@ def switch_vectors(spec, fmt):
     return out
 
 
+def ignore_vectors(fmt):
+    """ignore clause: for every switch base (defaults / edge completion off / obj edge export off) first the plain save
+    (ignore_elements=None, the base line of the comparison), then EVERY subset of {edges, faces, cells} incl. the empty
+    set, whatever the class of the mesh owns."""
+    bases = [("default", {}), ("C=0", {"C": False})] + ([("X=0", {"X": False})] if fmt == "obj" else [])
+    out = []
+    for bt, base in bases:
+        out.append({"id": f"I:{bt}:None", "bt": bt, "strict": True, "base": True, **base})
+        for k in range(len(IGN_KINDS) + 1):
+            for sub in itertools.combinations(IGN_KINDS, k):
+                out.append({"id": f"I:{bt}:ign=" + ("+".join(sub) or "{}"), "bt": bt, "strict": True, "ign": list(sub), **base})
+    return out
+
+
+def _cell_edges(cells):
+    out = set()
+    for c in cells:
+        tbl = TET_EDGES if len(c) == 4 else HEX_EDGES if len(c) == 8 else []
+        out |= {(min(c[a], c[b]), max(c[a], c[b])) for a, b in tbl if c[a] != c[b]}
+    return out
+
+
 # ------------------------------------------------------------------------------------------------ expectations
 def expectation(snap, spec, fmt, sw):
-    """What the statement promises for this (mesh, format, switches), from the mesh content only."""
+    """What the statement promises for this (mesh, format, switches), from the mesh content only.
+    sw["strict"] (ignore clause): exact edges - every edge of the saved mesh that does not belong to a non-ignored
+    face / cell the format cannot express has to come back when the format expresses edges and they are not ignored."""
     ign = set(sw.get("ign", ()))
     C_on = bool(sw.get("C", True))
     fok, cok = FACE_OK[fmt], CELL_OK.get(fmt, ())
@@ -358,7 +436,13 @@ def expectation(snap, spec, fmt, sw):
             tbl = TET_EDGES if len(c) == 4 else HEX_EDGES
             derived |= {(min(c[a], c[b]), max(c[a], c[b])) for a, b in tbl}
     one_dim = not snap["F"] and not snap["C"]
-    if edge_capable:
+    if edge_capable and sw.get("strict"):
+        lostF = [] if "faces" in ign else [f for f in snap["F"] if not (fok is None or len(f) in fok)]
+        lostC = [] if "cells" in ign else [c for c in snap["C"] if len(c) not in cok]
+        keep = (E_all - (_fe(lostF) | _cell_edges(lostC))) | declared
+        file_lo, file_hi = keep - (derived - declared), E_all
+        load_lo, load_hi = keep | derived, E_all | derived
+    elif edge_capable:
         file_lo, file_hi = (E_all, E_all) if one_dim else (declared, E_all)
         load_lo, load_hi = (E_all if one_dim else declared) | derived, E_all | derived
     else:
@@ -374,8 +458,10 @@ def expectation(snap, spec, fmt, sw):
         cls = ["PointCloud"]
     else:
         cls = ["PolyLine", "PointCloud"]
+    top = lambda c, f, e: "cells" if c else "faces" if f else "edges" if e else "points"
     return {"V": snap["V"], "F": F, "C": Cl, "file_E": (file_lo, file_hi), "load_E": (load_lo, load_hi), "cls": cls,
-            "edge_capable": edge_capable, "per_arity": fmt == "mesh"}
+            "edge_capable": edge_capable, "per_arity": fmt == "mesh",
+            "src": top(snap["C"], snap["F"], snap["E"]), "left": top(Cl, F, load_hi)}
 
 
 def _cmp_elems(got, want, per_arity):
@@ -446,27 +532,29 @@ def _child_stream(items, fn):
     return done, None
 
 
-def _load_snap(M, path, raw=False):
-    m = M.mesh.load(path, raw=raw)
+def _load_snap(M, path, raw=False, dim=None):
+    m = M.mesh.load(path, raw=raw) if dim is None else M.mesh.load(path, dim=dim, raw=raw)
     return snapshot(m)
 
 
-def stl_load_many(M, paths, rep):
+def stl_load_many(M, paths, rep, dims=None):
     """Load every STL file in sacrificial children (one child per batch, restarted after each death; files with
-    identical bytes are loaded once - the reader is a function of the bytes).
+    identical bytes are loaded once per `dim` argument - the reader is a function of the bytes).
     -> list of ("ok", snapshot) | ("raises", (exc, msg)) | ("crash", description), aligned with paths."""
     import hashlib
     key_of, first = [], {}
-    for p in paths:
+    for k, p in enumerate(paths):
         with open(p, "rb") as f:
             h = hashlib.blake2b(f.read(), digest_size=16).hexdigest()
+        d = None if dims is None else dims[k]
+        h = h if d is None else f"{h}@{d}"
         key_of.append(h)
-        first.setdefault(h, p)
+        first.setdefault(h, (p, d))
     todo = list(first)
     res = {}
 
     def one(h):
-        o = call(_load_snap, M, first[h])
+        o = call(_load_snap, M, first[h][0], False, first[h][1])
         return {"ok": True, "snap": o.value} if o.ok else {"ok": False, "exc": o.exc, "msg": o.msg}
 
     while todo:
@@ -522,8 +610,8 @@ def _violation(rep, subcheck, callee, kind, icls, detail):
 
 class _Ctx:
     """per-mesh bookkeeping"""
-    def __init__(self, M, rep, tmp, tag="", pending=None):
-        self.M, self.rep, self.tmp, self.k, self.tag = M, rep, tmp, 0, tag
+    def __init__(self, M, rep, tmp, tag="", pending=None, mode="rt"):
+        self.M, self.rep, self.tmp, self.k, self.tag, self.mode = M, rep, tmp, 0, tag, mode
         self.pending = pending if pending is not None else []     # deferred STL loads: (path, continuation)
         self.seen = {}             # failure key -> input_class first used (switch attribution)
         self.read_fail = set()     # formats whose reader failed on the reference writer's file of this mesh
@@ -532,12 +620,34 @@ class _Ctx:
         self.k += 1
         return os.path.join(self.tmp, f"m{self.tag}_{self.k}.{fmt}")
 
+    def clean(self, fmt, kinds, sw):
+        """a case passed every clause"""
+        if self.mode == "ignore":
+            if not sw.get("base"):
+                self.rep.count("ignclean:" + fmt)
+                self.rep.flag(f"ignclean:{fmt}:{sw['src']}->{sw['left']}")
+            return
+        self.rep.count("clean:" + fmt)
+        self.rep.flag("clean:" + fmt + ":" + kinds)
+
 
 def _report(ctx, phase, clause, callee, kind, fmt, kinds, sw, detail, tagged=True):
     """One fingerprint per (clause, format, element kinds): a failure already seen under the default switch vector
     for this mesh is the same defect; only a failure that needs the deviation gets the deviation in its class."""
     if clause in ("vertices", "edges"):
         kinds = clause                      # these clauses do not depend on which faces / cells the mesh has
+    if ctx.mode == "ignore":
+        # the ignore clause reports only what NEEDS the ignore set: a failure the plain save of this (mesh, format,
+        # switch base) shows as well belongs to the other clauses (and is reported there by the `rt` tasks)
+        key = (fmt, phase, clause, kind, kinds, sw["bt"])
+        if sw.get("base"):
+            ctx.seen[key] = True
+            ctx.rep.count("ign_fails_without_ignore")
+        elif key in ctx.seen:
+            ctx.rep.count("ign_same_as_without_ignore")
+        else:
+            _violation(ctx.rep, f"C04.ignore.{clause}", callee, kind, f"{fmt}:{kinds}:left={sw['left']}", detail)
+        return
     key = (fmt, phase, clause, kind, kinds)
     base = f"{fmt}:{kinds}"
     if sw["id"] == "default" or not tagged or key in ctx.seen:
@@ -567,6 +677,11 @@ def run_case(ctx, spec, salt, fmt, sw):
         mesh = _build(M, spec, V)
         snap = snapshot(mesh)
         exp = expectation(snap, spec, fmt, sw)
+        if ctx.mode == "ignore":
+            sw = dict(sw, src=exp["src"], left=exp["left"])
+            rep.count("ign_cases")
+            rep.flag("ignset:" + sw["id"].split(":")[-1])
+            rep.flag(f"ignrun:{fmt}:{exp['src']}->{exp['left']}")
         kinds = _kinds(snap)
         path = ctx.path(fmt)
         small = {"mesh": spec["name"], "V": V if len(V) <= 12 else f"{len(V)} vertices", "E": spec["E"], "F": spec["F"],
@@ -667,8 +782,7 @@ def _case_text(ctx, exp, snap, path, fmt, kinds, sw, small):
         _report(ctx, "roundtrip", rfail[0], "mouette.mesh.load", rfail[1], fmt, kinds, sw,
                 {**small, **rfail[2], "file": text[:1500]})
     if not wfails and not rfail:
-        rep.count("clean:" + fmt)
-        rep.flag("clean:" + fmt + ":" + kinds)
+        ctx.clean(fmt, kinds, sw)
 
 
 def _case_stl(ctx, exp, snap, path, fmt, kinds, sw, small):
@@ -700,8 +814,7 @@ def _case_stl(ctx, exp, snap, path, fmt, kinds, sw, small):
             _report(ctx, "roundtrip", rfail[0], "mouette.mesh.load", rfail[1], fmt, kinds if exp["F"] else "no-faces", sw,
                     {**small, **rfail[2], "file_bytes": len(data)}, tagged=bool(exp["F"]))
         if not wfail and not rfail:
-            rep.count("clean:stl")
-            rep.flag("clean:stl:" + kinds)
+            ctx.clean("stl", kinds, sw)
     ctx.pending.append((path, later))
 
 
@@ -835,6 +948,150 @@ def read_phase(ctx, spec, salt, fmt):
                               {**small, **fail[2], "variant": var, "switches": sw, "file": text[:1500]})
             else:
                 rep.count("clean_read:" + fmt)
+
+
+# ================================================================================================ dim override
+def _content_expectation(model, fmt, C_on):
+    """class and elements the content of a reference-written file implies (same rules as the read phase)"""
+    derived = (_fe(model["F"]) | _cell_edges(model["C"])) if C_on else set()
+    wantE = _eset(model["E"]) | derived
+    cls = "VolumeMesh" if model["C"] else "SurfaceMesh" if model["F"] else "PolyLine" if wantE else "PointCloud"
+    return cls, wantE
+
+
+def _judge_text_load(got, model, fmt, wantE, wantcls):
+    """first failing clause of a loaded snapshot against the model, class FIRST (the dim clause is about the class)"""
+    per = fmt == "mesh"
+    if got["cls"] != wantcls:
+        return ("class", "mismatch:class", {"got": got["cls"], "want": wantcls})
+    if _hexes(got["V"]) != _hexes(model["V"]):
+        return ("vertices", "mismatch:coordinates", _first_diff(_hexes(got["V"]), _hexes(model["V"])))
+    if _cmp_elems(got["C"], model["C"], per):
+        return ("cells", "mismatch:cells", _cmp_elems(got["C"], model["C"], per))
+    if (model["F"] or not model["C"]) and _cmp_elems(got["F"], model["F"], per):
+        return ("faces", "mismatch:faces", _cmp_elems(got["F"], model["F"], per))
+    if _cmp_edges(got["E"], (wantE, wantE)):
+        return ("edges", "mismatch:edges", _cmp_edges(got["E"], (wantE, wantE)))
+    return None
+
+
+def _judge_stl_load(result, want_soup, wantcls):
+    st, val = result
+    if st == "crash":
+        return ("loads", "crash", {"child": val})
+    if st == "raises":
+        return ("loads", "raises:" + val[0], {"msg": val[1]})
+    if val["cls"] != wantcls:
+        return ("class", "mismatch:class", {"got": val["cls"], "want": wantcls})
+    soup = _soup_of_snapshot(val)
+    if soup is None or soup != want_soup:
+        return ("faces", "mismatch:triangle_soup", {"got": (soup or val["F"])[:6], "want": want_soup[:6],
+                                                    "n_got": len(val["F"]), "n_want": len(want_soup)})
+    return None
+
+
+def _relation(dim, content):
+    return "dim<content" if dim < content else "dim==content" if dim == content else "dim>content"
+
+
+def run_dim(task, rep, tmp):
+    """load(path, dim=k), k in {None,0,1,2,3}, on the independent writer's file of every member x every format x edge
+    completion on/off: the class is CLASS_ORDER[max(k, content)] and every element is the one of the plain load."""
+    import mouette as M
+    from mc import c04_codecs as K
+    specs = family("sel", task["tier"])
+    failures = {}            # (clause, kind, relation) -> {fmt: detail}
+    exercised = {}           # relation -> formats that were judged under it
+    stl_jobs = []            # (path, dim, continuation)
+
+    def record(fail, rel, fmt, detail):
+        rep.outcome("dim:" + rel, fail[0] if fail else "same")
+        exercised.setdefault(rel, set()).add(fmt)
+        if fail:
+            failures.setdefault((fail[0], fail[1], rel), {}).setdefault(fmt, {**detail, **fail[2]})
+        else:
+            rep.count("dimclean:" + rel)
+            rep.flag(f"dimclean:{fmt}:{rel}")
+
+    for k in range(task["lo"], task["hi"]):
+        spec = specs[k]
+        for fmt in FORMATS:
+            stl = fmt == "stl"
+            V = _vertices_of(spec, k, stl)
+            fok, cok = FACE_OK[fmt], CELL_OK.get(fmt, ())
+            model = {"V": V, "attrs": {},
+                     "E": [sorted(e) for e in spec["E"]] if fmt in EDGE_FORMATS else [],
+                     "F": [f for f in spec["F"] if (len(f) == 3 if stl else fok is None or len(f) in fok)],
+                     "C": [c for c in spec["C"] if len(c) in cok]}
+            small = {"mesh": spec["name"], "format": fmt,
+                     "model": {a: (b if a != "V" or len(b) <= 12 else f"{len(b)} vertices") for a, b in model.items()}}
+            if stl:
+                if not model["F"]:
+                    continue                   # a facet-less STL cannot be written by the reference writer
+                V32 = [[K.f32(c) for c in p] for p in V]
+                tris = [[V32[v] for v in f] for f in model["F"]]
+                want = sorted(_rot_min([tuple(p) for p in t]) for t in tris)
+                for var, blob in (("binary", K.write_stl_binary(tris)), ("ascii", K.write_stl_ascii(tris).encode())):
+                    path = os.path.join(tmp, f"d{k}_{var}.stl")
+                    with open(path, "wb") as f:
+                        f.write(blob)
+                    rep.states += 1; rep.traces += 1
+                    base = {}
+                    for dim in DIMS:
+                        def later(result, dim=dim, base=base, var=var, small=small, want=want):
+                            rep.transitions += 1; rep.evaluations += 2
+                            if dim is None:
+                                base["ok"] = _judge_stl_load(result, want, "SurfaceMesh") is None
+                                rep.count("dim_plain_ok" if base["ok"] else "dim_plain_wrong")
+                                return
+                            if not base.get("ok"):
+                                return
+                            rep.case((small["mesh"], "stl", var, dim))
+                            fail = _judge_stl_load(result, want, CLASS_ORDER[max(dim, 2)])
+                            record(fail, _relation(dim, 2), "stl", {**small, "variant": var, "dim": dim})
+                        stl_jobs.append((path, dim, later))
+                continue
+            text = K.WRITERS[fmt](model, 0)
+            path = os.path.join(tmp, f"d{k}.{fmt}")
+            with open(path, "w", newline="\n") as f:
+                f.write(text)
+            rep.states += 1; rep.traces += 1
+            for C_on in (True, False):
+                sw = {"id": "default"} if C_on else {"id": "C=0", "C": False}
+                wcls, wantE = _content_expectation(model, fmt, C_on)
+                content = CLASS_ORDER.index(wcls)
+                with switches(M, sw):
+                    o = call(_load_snap, M, path)
+                    rep.transitions += 1; rep.evaluations += 5
+                    if not o.ok or _judge_text_load(o.value, model, fmt, wantE, wcls):
+                        rep.count("dim_plain_wrong")       # the plain load is already wrong: the read clause's business
+                        continue
+                    rep.count("dim_plain_ok")
+                    for dim in DIMS[1:]:
+                        rep.case((spec["name"], fmt, C_on, dim))
+                        rep.flag(f"dim:{dim}")
+                        o = call(_load_snap, M, path, False, dim)
+                        rep.transitions += 1; rep.evaluations += 5
+                        detail = {**small, "dim": dim, "switches": sw, "file": text[:1500]}
+                        if not o.ok:
+                            fail = ("loads", exc_kind(o), {"msg": o.msg})
+                        else:
+                            fail = _judge_text_load(o.value, model, fmt, wantE, CLASS_ORDER[max(dim, content)])
+                        record(fail, _relation(dim, content), fmt, detail)
+            os.unlink(path)
+    if stl_jobs:
+        results = stl_load_many(M, [p for p, _, _ in stl_jobs], rep, [d for _, d, _ in stl_jobs])
+        for (_, _, later), res in zip(stl_jobs, results):
+            later(res)
+    for sig in sorted(failures):
+        clause, kind, rel = sig
+        bad = failures[sig]
+        if len(exercised[rel]) > 1 and set(bad) == exercised[rel]:
+            rep.violation(f"C04.dim.{clause}", "mouette.mesh.load", kind, f"{rel}:all-formats",
+                          {**bad[sorted(bad)[0]], "formats_failing": sorted(bad)})
+        else:
+            for fmt in sorted(bad):
+                rep.violation(f"C04.dim.{clause}", "mouette.mesh.load", kind, f"{rel}:{fmt}", bad[fmt])
 
 
 # ================================================================================================ attributes
@@ -1114,6 +1371,29 @@ def run_task(task, rep: Report):
         if task["kind"] == "attr":
             run_attr(task, rep, tmp)
             return
+        if task["kind"] == "dim":
+            if task["lo"] == 0:
+                rep.count("family:sel", len(family("sel", task["tier"])))
+            run_dim(task, rep, tmp)
+            return
+        if task["kind"] == "ign":
+            specs = family("sel", task["tier"])
+            fmt = task["fmt"]
+            pending = []
+            for k in range(task["lo"], task["hi"]):
+                ctx = _Ctx(M, rep, tmp, tag=str(k), pending=pending, mode="ignore")
+                for sw in ignore_vectors(fmt):
+                    run_case(ctx, specs[k], k, fmt, sw)
+                if k % 17 == 3:
+                    rep.sample({"mesh": specs[k]["name"], "format": fmt, "ignore_sets": [s["id"] for s in ignore_vectors(fmt)]})
+                if fmt != "stl":
+                    for fn in os.listdir(tmp):
+                        os.unlink(os.path.join(tmp, fn))
+            if pending:
+                results = stl_load_many(M, [p for p, _ in pending], rep)
+                for (_, later), res in zip(pending, results):
+                    later(res)
+            return
         specs = family(task["fam"], task["tier"])
         fmt = task["fmt"]
         if task["lo"] == 0:
@@ -1169,6 +1449,31 @@ def finish(tier, rep: Report):
     for c in ("vertices", "edges", "faces", "face_corners"):
         if f"clean_attr:{c}" not in rep.flags:
             fails.append(f"no attribute on {c} ever survived the round trip")
+    # ---- ignore clause
+    if rep.counters.get("family:sel") != PINNED_SEL[tier]:
+        fails.append(f"ignore/dim sub-family has {rep.counters.get('family:sel')} members, pinned {PINNED_SEL[tier]}")
+    subsets = ["None"] + ["ign=" + ("+".join(c) or "{}") for k in range(4) for c in itertools.combinations(IGN_KINDS, k)]
+    for sub in subsets:
+        if "ignset:" + sub not in rep.flags:
+            fails.append("ignore_elements value never used: " + sub)
+    for fmt, trs in IGN_FLOOR.items():
+        for tr in trs:
+            if f"ignclean:{fmt}:{tr}" not in rep.flags:
+                fails.append(f"ignore clause: no case {tr} passed every clause for format {fmt}")
+    if not rep.counters.get("ign_fails_without_ignore") or not rep.counters.get("ign_same_as_without_ignore"):
+        fails.append("ignore clause: the attribution to the plain save was never exercised")
+    # ---- dim clause
+    for d in DIMS[1:]:
+        if f"dim:{d}" not in rep.flags:
+            fails.append(f"dim override never used: {d}")
+    for fmt in FORMATS:
+        for rel in DIM_RELATIONS:
+            if fmt == "xyz" and rel == "dim<content":
+                continue
+            if f"dimclean:{fmt}:{rel}" not in rep.flags:
+                fails.append(f"dim clause: no load with {rel} passed every clause for format {fmt}")
+    if not rep.counters.get("dim_plain_ok"):
+        fails.append("dim clause: no plain load was right")
     # the clauses can PASS on every element kind the unchanged tree handles (a guard that needs no defect to hold)
     for fmt, kinds in CLEAN_FLOOR.items():
         for k in kinds:
